@@ -236,14 +236,63 @@ with the id of the `BiPayload`, the sync-candidate and broadcast-target filters 
 member's cluster with the agent's, both payloads default the field on EOF to `ClusterId(0)`, senders
 declare their own id and the sync client aborts on a rejection. -/
 theorem all_sites_guarded :
-    requiredSites.all (fun n => Corro.Gen.ClusterSites.sites.lookup n == some true) = true ∧
-    Corro.Gen.ClusterSites.sites.all (fun s => s.2) = true := by
+    requiredSites.all (fun n => (Corro.Gen.ClusterSites.sites.lookup n).map (·.1) == some true) = true ∧
+    Corro.Gen.ClusterSites.sites.all (fun s => s.2.1) = true := by
   decide
 
+/-- **C16 (every gate uses the node's CURRENT id).**  In the current source every site reads the node's own
+cluster id with `agent.cluster_id()` at the use site (or binds it inside the loop / per call), so a run-time
+`cluster set-id` reaches the broadcast loop (frame stamp, both `ring0` calls, the target filter), the
+sync-partner choice of every sync round, `serve_sync` of every session and the `SyncStart` of every
+client session.  The table's `fresh` flag is `false` for a local bound outside the task's loop (field
+shorthand is resolved to its binding).
+
+The only site that is allowed to be not fresh is `uni.drop_on_mismatch`: the uni handler compares with the
+value `agent.cluster_id()` had when the connection was accepted (`uni.captured_is_agent_id`), so the
+staleness window that remains in the code is exactly one accepted inbound connection — see
+`observation_stale_connection_after_set_id`. -/
+theorem all_sites_fresh :
+    Corro.Gen.ClusterSites.sites.all (fun s => s.2.2 || s.1 == "uni.drop_on_mismatch") = true ∧
+    requiredSites.all (fun n => n == "uni.drop_on_mismatch" ||
+      (Corro.Gen.ClusterSites.sites.lookup n).map (·.2) == some true) = true := by
+  decide
+
+/-- **C16 (run-time change of the id).**  The gate's id is a state component that `set-id` replaces; every
+decision of the node uses the current one.  After `setCluster new`, for EVERY membership table (which may
+still hold members of the former cluster): every sync candidate, every ring-0 target and every broadcast
+target is a listed member of cluster `new`; the frames the node writes declare `new`, so a receiver that is
+still in the former cluster drops them; a sync server of the former cluster answers its `SyncStart` with the
+rejection only; and connections the node accepts from now on filter with `new`. -/
+theorem decisions_follow_current_id (n : Node) (new : Nat) (isLocal : Bool) (ring0 sentTo : List Nat)
+    (ms : List Member) :
+    (∀ m ∈ (n.setCluster new).candidates ms, m ∈ ms ∧ m.cluster = new ∧ m.actor ≠ n.self) ∧
+    (∀ a ∈ (n.setCluster new).ring0 ms, ∃ m ∈ ms, m.addr = a ∧ m.cluster = new ∧ m.ring = some 0) ∧
+    (∀ a ∈ (n.setCluster new).targets isLocal ring0 sentTo ms,
+        ∃ m ∈ ms, m.addr = a ∧ m.cluster = new ∧ m.actor ≠ n.self) ∧
+    (n.setCluster new).stamp = new ∧
+    (∀ old, old ≠ new →
+        acceptBroadcast old (some (n.setCluster new).stamp) = false ∧
+        serveSync old (some (n.setCluster new).stamp) true 1 = [Msg.rejection Rejection.differentCluster]) ∧
+    (∀ p, acceptOnConn (n.setCluster new).accept p = true ↔ decodeCluster p = new) := by
+  refine ⟨?_, ?_, ?_, rfl, ?_, ?_⟩
+  · exact (candidates_same_cluster n.self new ms).1
+  · intro a ha
+    exact (ring0_targets_same_cluster new ms a).mp ha
+  · exact (targets_same_cluster n.self new isLocal ring0 sentTo ms).1
+  · intro old h
+    have h' : ¬ new = old := fun e => h e.symm
+    constructor
+    · simp [Node.setCluster, Node.stamp, acceptBroadcast, decodeCluster, h]
+    · simp [Node.setCluster, Node.stamp, serveSync, decodeCluster, h']
+  · intro p
+    exact broadcast_accepted_iff_same_cluster new p
+
 /-- **Observation, outside the property's quantifier** (pairs of ids / message types / membership
-tables): the uni handler of an already accepted connection keeps the id it was spawned with, so after a
-run-time `cluster set-id old → new` that connection still lets payloads declaring `old` through and
-drops payloads declaring `new`, until the connection is re-established. -/
+tables): the uni handler of an already accepted connection keeps the id it was spawned with (the one site
+with `fresh = false` in the unchanged tree), so after a run-time `cluster set-id old → new` that connection
+still lets payloads declaring `old` through and drops payloads declaring `new`, until the connection is
+re-established.  Within that window the node — whose id is now `new` — applies a change declared for
+`old`; the harness op `reconf` reproduces it on the real agent and records it as an observation. -/
 theorem observation_stale_connection_after_set_id (old new : Nat) (h : old ≠ new) :
     acceptOnConn ⟨old⟩ (some old) = true ∧ acceptOnConn ⟨old⟩ (some new) = false := by
   simp [acceptOnConn, acceptBroadcast, decodeCluster, h]
@@ -268,5 +317,10 @@ example : serveSync 1 (some 2) true 5 = [Msg.rejection Rejection.differentCluste
 example : serveSync 0 none true 2 = [Msg.state, Msg.clock, Msg.changeset, Msg.changeset] := by decide
 example : serveSync 4 none true 2 = [Msg.rejection Rejection.differentCluster] := by decide
 example : clientSync 1 2 true 5 = 0 ∧ clientSync 2 2 true 5 = 5 := by decide
+-- a node of cluster 1 (actor 9) is moved to cluster 0 while its table still lists both clusters
+example : ((Node.mk 9 1).setCluster 0).targets false [] [] exampleTable = [102, 106] := by decide
+example : ((Node.mk 9 1).setCluster 0).ring0 exampleTable = [102] := by decide
+example : (((Node.mk 9 1).setCluster 0).candidates exampleTable).map (·.actor) = [2, 6] := by decide
+example : acceptBroadcast 1 (some ((Node.mk 9 1).setCluster 0).stamp) = false := by decide
 
 end Corro.ClusterGate
